@@ -189,7 +189,10 @@ class FormulaTransformer(m.MatcherDecoratableTransformer):
 
         n_to_s = self.name_to_symbol[i]
         while n_to_s is None:
-            i -= 1
+            # Inlined comprehension (PEP 709): its symbols are in the table of
+            # the enclosing scope, not of the scope that happens to precede it
+            scope = scope.parent
+            i = next(i for i, v in enumerate(self.scopes) if scope == v)
             n_to_s = self.name_to_symbol[i]
 
         symbol = n_to_s.get(node.value, None)
